@@ -42,6 +42,13 @@ def build_qc(gates, nq, seed):
     for q in range(nq):
         single(q)
     for name, qs in gates:
+        if name in ("cx", "cz") and rng.random() < 0.04:
+            # an open-controlled gate (acts when the control is |0>): the converter has no such gate - it must refuse, or convert it correctly
+            getattr(qc, name)(*qs, ctrl_state=0)
+            desc.append((name + " ctrl_state=0",) + tuple(qs))
+            for q in qs:
+                single(q)
+            continue
         getattr(qc, name)(*qs)
         desc.append((name,) + tuple(qs))
         for q in qs:
